@@ -313,6 +313,8 @@ let sd_case (f : string array) : string =
          | [] -> out := "r=none" :: !out)
       end
       else if op = "d" then begin ignore (dostep Model.ServerDrop); eager () end
+      else if op = "l" then
+        out := (Printf.sprintf "l=%s" (if !s.Model.listening then "listening" else "closed")) :: !out
       else if op = "p" then
         out := (Printf.sprintf "p=%s" (if kind = "t" then "na" else if !s.Model.path_removed then "gone" else "there")) :: !out
       else if op = "a" then begin
@@ -320,7 +322,7 @@ let sd_case (f : string array) : string =
                                          String.concat "," (List.map (fun c -> Printf.sprintf "%d:200" c) !held))) :: !out;
         held := []
       end
-      else if op.[0] = 'c' then begin
+      else if op.[0] = 'c' || op.[0] = 'C' then begin        (* C: the same client with a second, pipelined request *)
         let k = int_of_string (arg ()) in
         ignore (dostep (Model.ClientConnect (nat_of_int k))); eager ();
         if List.exists (fun c -> nat_to_int c = k) !s.Model.refused then out := (Printf.sprintf "c%d=failed" k) :: !out
@@ -437,6 +439,114 @@ let mqr_case (f : string array) : string =
       (match !bad with
        | Some why -> "LOCKSTEP-FAIL at the end: " ^ why
        | None -> Printf.sprintf "LOCKSTEP-OK %d labels" (List.length labels))
+
+(* ---------------- the receive calls of Server issued one after the other (su) ---------------- *)
+(* su <u|t> <ops>: one receiver (index 0) of the queue model; every call runs to its return before the next operation:
+   a call that finds nothing blocks; a timed call then returns by Tick T / Timeout / Resume ("full"), a blocking one is
+   reported as `hang` and released by one Unblock of the harness's own. *)
+let su_case (f : string array) : string =
+  let s = ref (Model.mq_init (nat_of_int 1)) in
+  let z = nat_of_int 0 in
+  let st l = match Model.mq_step true !s l with Some s' -> s := s'; true | None -> false in
+  let idle () = List.nth !s.Model.rs 0 = Model.Idle in
+  let out = ref [] in
+  (* runs a call label; returns `Some result` when the call has returned (R<k> | tok), None while it is blocked *)
+  let call l =
+    let g = List.length !s.Model.got in
+    ignore (st l);
+    if idle () then begin
+      let g' = List.length !s.Model.got in
+      Some (if g' > g then Printf.sprintf "R%d" (nat_to_int (List.nth !s.Model.got (g' - 1))) else "tok")
+    end else None in
+  let finish () =
+    (* the blocked call resumes until it has returned *)
+    let g = List.length !s.Model.got in
+    let n = ref 0 in
+    while not (idle ()) && !n < 4 do ignore (st (Model.Resume z)); incr n done;
+    let g' = List.length !s.Model.got in
+    if g' > g then Printf.sprintf "R%d" (nat_to_int (List.nth !s.Model.got (g' - 1))) else "tok" in
+  List.iter (fun op ->
+      let arg () = String.sub op 1 (String.length op - 1) in
+      if op = "u" then ignore (st (Model.Unblock None))
+      else if op.[0] = 'q' then ignore (st (Model.Push (nat_of_int (int_of_string (arg ())), None)))
+      else if op = "y" then
+        (match call (Model.CallTry z) with
+         | Some "tok" | None -> out := "y:N" :: !out
+         | Some r -> out := ("y:" ^ r) :: !out)
+      else if op.[0] = 't' then begin
+        let ms = int_of_string (arg ()) in
+        match call (Model.CallTimed (z, nat_of_int (10 * ms))) with
+        | Some "tok" -> out := (Printf.sprintf "t%d:N:fast" ms) :: !out
+        | Some r -> out := (Printf.sprintf "t%d:%s:fast" ms r) :: !out
+        | None ->
+            ignore (st (Model.Tick (nat_of_int (10 * ms))));
+            ignore (st (Model.Timeout z));
+            let r = finish () in
+            out := (Printf.sprintf "t%d:%s:full" ms (if r = "tok" then "N" else r)) :: !out
+      end
+      else if op = "r" || op = "i" then
+        (match call (Model.CallPop z) with
+         | Some "tok" -> out := (op ^ ":E") :: !out
+         | Some r -> out := (op ^ ":" ^ r) :: !out
+         | None ->
+             out := (op ^ ":hang") :: !out;
+             ignore (st (Model.Unblock (Some z)));
+             ignore (finish ()))) (String.split_on_char ',' f.(2));
+  if not (idle ()) then "MODEL-STUCK" else
+  if !out = [] then "-" else String.concat " " (List.rev !out)
+
+(* ---------------- lock-step replay of a recorded trace of the real writer chain (sws) ---------------- *)
+(* swr <labels> <stream hex> <pend>      labels: N | W<i>:<hex> | F<i> | D<i>     pend: name/op,.. (op = w<i>:<hex> | f<i> | d<i>)
+   Every recorded label must be enabled in Conc/SeqWriter.v (fixed = true: the repaired tree); at the end the
+   stream of the model is the sink's content and every operation the implementation is still blocked in is
+   disabled in the model too (the code blocks exactly where the model does). *)
+let swr_case (f : string array) : string =
+  let labels = if f.(1) = "-" then [] else String.split_on_char ';' f.(1) in
+  let nats_of_hex h = let b = Conv.unhex_string h in List.init (String.length b) (fun i -> nat_of_int (Char.code b.[i])) in
+  let lab_of (l : string) : Model.nat Model.label1 option =
+    let n = String.length l in
+    let rest = if n > 1 then String.sub l 1 (n - 1) else "" in
+    try
+      match l.[0] with
+      | 'N' when n = 1 -> Some Model.New
+      | 'W' | 'w' -> let (i, d) = split2 ':' rest in Some (Model.Write (nat_of_int (int_of_string i), nats_of_hex d))
+      | 'F' | 'f' -> Some (Model.Flush (nat_of_int (int_of_string rest)))
+      | 'D' | 'd' -> Some (Model.DropW (nat_of_int (int_of_string rest)))
+      | _ -> None
+    with _ -> None in
+  let s = ref Model.sw_init in
+  let fail = ref None in
+  List.iteri (fun k l ->
+      if !fail = None then
+        match lab_of l with
+        | None -> fail := Some (Printf.sprintf "label %d (%s) is not a label of the model" k l)
+        | Some lab ->
+            (match Model.sw_step true !s lab with
+             | Some s' -> s := s'
+             | None -> fail := Some (Printf.sprintf "label %d (%s) is not enabled in the model" k l))) labels;
+  match !fail with
+  | Some why -> "LOCKSTEP-FAIL " ^ why
+  | None ->
+      let hex_of ns = String.concat "" (List.map (fun x -> Printf.sprintf "%02x" (nat_to_int x)) ns) in
+      let ms = hex_of !s.Model.stream0 in
+      let is = if f.(2) = "-" then "" else f.(2) in
+      if ms <> is then Printf.sprintf "LOCKSTEP-FAIL at the end: the sink holds %s, the model's stream is %s" is ms
+      else begin
+        let bad = ref None in
+        if f.(3) <> "-" then
+          List.iter (fun x ->
+              let (name, op) = split2 '/' x in
+              match lab_of op with
+              | Some lab ->
+                  (match Model.sw_step true !s lab with
+                   | Some _ when !bad = None ->
+                       bad := Some (Printf.sprintf "%s never completed %s, which is enabled in the model (the chain stalled)" name op)
+                   | _ -> ())
+              | None -> ()) (String.split_on_char ',' f.(3));
+        match !bad with
+        | Some why -> "LOCKSTEP-FAIL at the end: " ^ why
+        | None -> Printf.sprintf "LOCKSTEP-OK %d labels" (List.length labels)
+      end
 
 (* ---------------- lock-step replay of a recorded trace of the real task pool (tps) ---------------- *)
 (* tpr <a|f> <labels> <started> *)
